@@ -272,6 +272,85 @@ end PoseVerif
 namespace PoseVerif
 variable {S : Type}
 
+/-! ## interpolation of any kind -/
+
+/-- an interpolant that returns rows as wide as its samples (every scipy kind does: it interpolates along axis 0) -/
+def KeepsWidth (kind : List S → List (List S) → S → List S) : Prop :=
+  ∀ (w : Nat) (xs : List S) (ys : List (List S)) (x : S), (∀ y ∈ ys, y.length = w) → (kind xs ys x).length = w
+
+theorem interpTrackWith_rect (sc : Scalar S) (kind : List S → List (List S) → S → List S) (hk : KeepsWidth kind) (steps newSteps : List S) (rows : List (Option (List S))) (w : Nat)
+    (hrows : ∀ r ∈ rows, ∀ v, r = some v → v.length = w) :
+    RectL newSteps.length (fun row : List S => row.length = w) (interpTrackWith sc kind steps newSteps rows w) := by
+  unfold interpTrackWith
+  have hobs : ∀ sv ∈ (steps.zip rows).filterMap (fun (x : S × Option (List S)) => x.2.map fun v => (x.1, v)), sv.2.length = w := by
+    intro sv hsv
+    obtain ⟨⟨s, r⟩, hmem, hmap⟩ := List.mem_filterMap.mp hsv
+    cases r with
+    | none => simp at hmap
+    | some v =>
+      simp at hmap; subst hmap
+      exact hrows (some v) (List.of_mem_zip hmem).2 v rfl
+  generalize (steps.zip rows).filterMap (fun (x : S × Option (List S)) => x.2.map fun v => (x.1, v)) = obs at hobs
+  cases obs with
+  | nil => exact ⟨by simp, by intro y hy; simp at hy; obtain ⟨_, rfl⟩ := hy; simp⟩
+  | cons o rest =>
+    obtain ⟨first, v0⟩ := o
+    refine ⟨by simp, ?_⟩
+    intro y hy
+    obtain ⟨i, hi, rfl⟩ := List.getElem_of_mem hy
+    simp only [List.getElem_mapIdx]
+    split
+    · cases rest with
+      | nil => exact hobs (first, v0) (by simp)
+      | cons o2 rest2 =>
+        simp only []
+        apply hk
+        intro y hy
+        obtain ⟨sv, hsv, rfl⟩ := List.mem_map.mp hy
+        exact hobs sv hsv
+    · simp
+
+/-- **interpolation of any kind keeps a body well-formed**: shapes `(new frames, people, points, dims)`, confidences `(new frames, people, points)`, and the missing pattern is
+    the one derived from the (interpolated) confidences -/
+theorem interpolateWith_inv [Inhabited S] (sc : Scalar S) {isZero : S → Bool} (kind : List S → List (List S) → S → List S) (hk : KeepsWidth kind)
+    {F P N D : Nat} {b : PBody S} (h : BInv isZero F P N D b) (hF : 2 ≤ F) (hP : 0 < P) (hN : 0 < N) (newFps : S) (newFrames : Nat) :
+    ∃ r, interpolateBodyWith sc isZero kind newFps newFrames b = some r ∧ BInv isZero newFrames P N D r ∧ r.fps = newFps := by
+  unfold interpolateBodyWith
+  have hF1 : b.data.length ≠ 1 := by rw [h.data.1]; omega
+  simp only [hF1, if_false]
+  rw [numPeople_of_rect h.conf (by omega), numPoints_of_rect h.conf (by omega) hP, numDims_of_rect h.data (by omega) hP hN, h.data.1]
+  refine ⟨_, rfl, ?_, rfl⟩
+  have hmk : ∀ (d : A4 S) (c : A3 S), mkBody Backend.numpy isZero newFps d c none = mkC isZero newFps d c := fun _ _ => rfl
+  rw [hmk]
+  have htrack : ∀ p n, p < P → n < N →
+      RectL newFrames (fun row : List S => row.length = D + 1)
+        (interpTrackWith sc kind (linspace01 sc F) (linspace01 sc newFrames)
+          ((List.range F).map fun f =>
+            if isZero (((b.conf.getD f []).getD p []).getD n default) then none
+            else some ((((b.data.getD f []).getD p []).getD n []) ++ [((b.conf.getD f []).getD p []).getD n default])) (D + 1)) := by
+    intro p n hp hn
+    have := interpTrackWith_rect sc kind hk (linspace01 sc F) (linspace01 sc newFrames)
+      ((List.range F).map fun f =>
+            if isZero (((b.conf.getD f []).getD p []).getD n default) then none
+            else some ((((b.data.getD f []).getD p []).getD n []) ++ [((b.conf.getD f []).getD p []).getD n default])) (D + 1) ?_
+    · rwa [linspace01_length] at this
+    · intro r hr v hv
+      obtain ⟨f, hf, rfl⟩ := List.mem_map.mp hr
+      have hf' : f < F := List.mem_range.mp hf
+      split at hv
+      · cases hv
+      · cases hv
+        have h1 := RectL.getD h.data f [] hf'
+        have h2 := RectL.getD h1 p [] hp
+        have h3 := RectL.getD h2 n [] hn
+        rw [List.length_append, h3]; rfl
+  refine BInv.mkC _ _ ?_ ?_
+  · refine RectL.range_map _ _ fun t ht => RectL.range_map _ _ fun p hp => RectL.range_map _ _ fun n hn => ?_
+    have hrow := RectL.getD (htrack p n hp hn) t (List.replicate (D + 1) sc.zero) ht
+    simp only [List.length_take, hrow]
+    omega
+  · exact RectL.range_map _ _ fun t _ => RectL.range_map _ _ fun p _ => by simp
+
 /-! ## bounding boxes -/
 
 theorem minOpt_isNone (sc : Scalar S) (l : List S) : (minOpt sc l).isNone = l.isEmpty := by cases l <;> rfl
